@@ -65,7 +65,20 @@ type ClientConn struct {
 	logger        *zap.Logger
 	closing       bool
 	closingMu     *sync.RWMutex
-	codec         frame.RawCodec
+	codec         atomic.Value // codecHolder; replaced by Handshake() while the reader and writer goroutines are running
+}
+
+// codecHolder gives every value stored in `ClientConn.codec` the same concrete type (a requirement of `atomic.Value`).
+type codecHolder struct {
+	frame.RawCodec
+}
+
+func (c *ClientConn) rawCodec() frame.RawCodec {
+	return c.codec.Load().(codecHolder).RawCodec
+}
+
+func (c *ClientConn) setRawCodec(codec frame.RawCodec) {
+	c.codec.Store(codecHolder{codec})
 }
 
 // ConnectClient creates a new connection to an endpoint within a downstream cluster using TLS if specified.
@@ -76,8 +89,8 @@ func ConnectClient(ctx context.Context, endpoint Endpoint, config ClientConnConf
 		closingMu:     &sync.RWMutex{},
 		preparedCache: config.PreparedCache,
 		logger:        GetOrCreateNopLogger(config.Logger),
-		codec:         codecs.CustomRawCodec,
 	}
+	c.setRawCodec(codecs.CustomRawCodec)
 	var err error
 	c.conn, err = Connect(ctx, endpoint, c)
 	if err != nil {
@@ -96,7 +109,7 @@ func (c *ClientConn) Handshake(ctx context.Context, version primitive.ProtocolVe
 		value := startupKeysAndValues[i+1]
 		if strings.EqualFold("COMPRESSION", key) {
 			if codec, ok := codecs.CustomRawCodecsWithCompression[strings.ToLower(value)]; ok {
-				c.codec = codec
+				c.setRawCodec(codec)
 			} else {
 				return version, fmt.Errorf("invalid compression type: %s", value)
 			}
@@ -269,14 +282,14 @@ func (c *ClientConn) SetKeyspace(ctx context.Context, version primitive.Protocol
 }
 
 func (c *ClientConn) Receive(reader io.Reader) error {
-	raw, err := c.codec.DecodeRawFrame(reader)
+	raw, err := c.rawCodec().DecodeRawFrame(reader)
 	if err != nil {
 		return err
 	}
 
 	if raw.Header.OpCode == primitive.OpCodeEvent {
 		if c.eventHandler != nil {
-			frm, err := c.codec.ConvertFromRawFrame(raw)
+			frm, err := c.rawCodec().ConvertFromRawFrame(raw)
 			if err != nil {
 				return err
 			}
@@ -328,7 +341,7 @@ func (c *ClientConn) maybePrepareAndExecute(request Request, raw *frame.RawFrame
 	}
 
 	if isUnprepared {
-		frm, err := c.codec.ConvertFromRawFrame(raw)
+		frm, err := c.rawCodec().ConvertFromRawFrame(raw)
 		if err != nil {
 			c.logger.Error("failed to decode unprepared error response", zap.Error(err))
 			return false
@@ -369,7 +382,7 @@ func (c *ClientConn) maybeCachePrepared(request Request, raw *frame.RawFrame) {
 	// response types to see if check for prepared responses.
 	if request.IsPrepareRequest() {
 
-		frm, err := c.codec.ConvertFromRawFrame(raw)
+		frm, err := c.rawCodec().ConvertFromRawFrame(raw)
 		if err != nil {
 			c.logger.Error("failed to decode prepared result response", zap.Error(err))
 			return
@@ -440,7 +453,7 @@ func (c *ClientConn) SendAndReceive(ctx context.Context, f *frame.Frame) (*frame
 
 	select {
 	case r := <-request.res:
-		return c.codec.ConvertFromRawFrame(r)
+		return c.rawCodec().ConvertFromRawFrame(r)
 	case e := <-request.err:
 		return nil, e
 	case <-ctx.Done():
@@ -506,10 +519,10 @@ func (r *requestSender) Send(writer io.Writer) error {
 	switch frm := r.request.Frame().(type) {
 	case *frame.Frame:
 		frm.Header.StreamId = r.stream
-		return r.conn.codec.EncodeFrame(frm, writer)
+		return r.conn.rawCodec().EncodeFrame(frm, writer)
 	case *frame.RawFrame:
 		frm.Header.StreamId = r.stream
-		return r.conn.codec.EncodeRawFrame(frm, writer)
+		return r.conn.rawCodec().EncodeRawFrame(frm, writer)
 	default:
 		return errors.New("unhandled frame type")
 	}
